@@ -65,6 +65,11 @@ def configs(tier, seed):
         datasets=[{"label": "d1", "mc": ["m1"], "maxis": A3, "gaxis": [1.0, 2.0]},
                   {"label": "d2", "mc": ["m1"], "maxis": A3, "gaxis": [2.0, 3.0]}],
         groups={"default": {"link_clp": True}}, shared_clp=True)
+    add("linked-three-scales-partial-overlap", mcs={"m1": {"labels": ["s1", "s2"]}},
+        datasets=[{"label": "d1", "mc": ["m1"], "maxis": A3, "gaxis": [1.0, 2.0, 3.0], "scale": "sc1"},
+                  {"label": "d2", "mc": ["m1"], "maxis": A3, "gaxis": [2.0, 3.0, 4.0], "scale": "sc2"},
+                  {"label": "d3", "mc": ["m1"], "maxis": A3, "gaxis": [1.0, 3.0, 4.0, 5.0], "scale": "sc3"}],
+        groups={"default": {"link_clp": True}}, shared_clp="scaled")
     if tier == "thorough":
         from harness import pipeline as pl
 
@@ -92,7 +97,10 @@ def generating_clp(cfg, ds, src):
     for g, gv in enumerate(ds["gaxis"]):
         for j, lab in enumerate(labels):
             key = f"C_{'all' if cfg.get('shared_clp') else ds['label']}_{str(gv).replace('.', 'p')}_{lab}"
-            arr[g, j] = src.get(key)
+            v = src.get(key)
+            if cfg.get("shared_clp") == "scaled" and ds.get("scale"):
+                v = v * src.get(f"P_{ds['scale']}")  # dataset d is generated from scale_d x the common clp
+            arr[g, j] = v
     return xr.DataArray(np.asarray(arr), coords=[("global", np.asarray(ds["gaxis"], dtype=float)), ("clp_label", labels)]), labels
 
 
@@ -175,6 +183,7 @@ def run_config(cfg, rec):
                         c = z3.Real(key)
                         if ds.get("scale") and not cfg.get("shared_clp"):
                             c = c / pv[ds["scale"]]
+                        # shared_clp == "scaled": generating clp of dataset d is scale_d x common clp, so the common clp is recovered
                         coef.append(c)
                 for r in range(mat.shape[0]):
                     fit = z3.Sum([zreal(mat[r, j]) * coef[j] for j in range(mat.shape[1])]) if mat.shape[1] else z3.RealVal(0)
@@ -235,4 +244,21 @@ def replay(data):
                     if abs(a - b) > 1e-7 * max(1.0, abs(b)):
                         return True, (f"config {cfg['name']}: estimated clp {lab} of {ds['label']} at {gv} is {a}, generating clp / "
                                       f"dataset scale = {b}")
+    # reproducibility of the noise seed (compiled RNG: sampled, not decided symbolically), including seed 0
+    from harness import pipeline as pl
+    from glotaran.simulation.simulation import simulate
+
+    src = pl.Source(c02.salted("r1"), "r1")
+    pl.set_source(src)
+    ds0 = cfg["datasets"][0]
+    if not ds0.get("gmc"):
+        model, params = pl.build_model(cfg, src), pl.build_parameters(cfg, src)
+        coords = {"model": np.asarray(ds0["maxis"], dtype=float), "global": np.asarray(ds0["gaxis"], dtype=float)}
+        clp, _ = generating_clp(cfg, ds0, src)
+        for seed_ in (0, 7):
+            a = simulate(model, ds0["label"], params, coords, clp=clp, noise=True, noise_std_dev=0.1, noise_seed=seed_)
+            np.random.random(3)
+            b = simulate(model, ds0["label"], params, coords, clp=clp, noise=True, noise_std_dev=0.1, noise_seed=seed_)
+            if not np.array_equal(a.data.values, b.data.values):
+                return True, f"config {cfg['name']}: simulate(..., noise=True, noise_seed={seed_}) is not reproducible"
     return False, "simulated data reproduced; clps recovered"
